@@ -81,6 +81,23 @@
 //!   C01 draw() on R1 == draw() on R2 == pixels() fed to draw_iter (same target box);
 //!   C02 every pixel drawn on an unbounded target lies inside `bounding_box()`; a transparent style draws nothing;
 //!   C07 draw() of the translated shape (translate and translate_mut) == the shifted picture, styled bounding box shifted.
+//!
+//! Streams of the `fixed_point` build only (generated only there; models `EG.Model.FixedReal`, `FixedTrig`,
+//! `PlaneSectorNew`: the trigonometry of that build is integer arithmetic and IS modelled). Angles are raw
+//! I16F16 bits (`Angle::verif_from_raw` / `verif_raw`); `panic` wherever the real code panics in this build
+//! (overflow checks and debug assertions on):
+//!   sector.consts
+//!       -> c180= c55= c305= c360= <Angle::from_degrees(180.0 | 55.0 | 360.0 - 55.0 | 360.0).verif_raw()>
+//!          nm=<modulus of Angle::normalize, observed as (-1 bit).normalize() + 1 bit>
+//!   sector.trig raw_start raw_sweep
+//!       -> ps=<verif_hooks::plane_sector(start, sweep)> bv=<bevel kind and normal of Styled<Sector>.pixels()>
+//!          nz=<start.normalize()> ab=<start.abs()> ng=<-start> ad=<start + sweep> sb=<start - sweep>
+//!   sector.fxpoints x y d raw_start raw_sweep
+//!       -> ps=<..> bb=<..> pts=<..> in=<..> as sector.points (the model computes the plane sector itself)
+//!   Oracle of sector.trig (C18, for angles of at most 8 turns): the `EntirePlane` tag iff |sweep| >= 360 degrees
+//!   (the raw angle read as radians, +-2 bits at the limit), Union iff >= 180 degrees; each normal within 16 (of
+//!   1024) of the exact `1024 (-sin t, cos t)` of the boundary's true angle `t = raw / 65536` rad.
+//!   The relation between a user's f32 degrees and the raw bits (`Angle::from_degrees`) is outside the model.
 use crate::common::*;
 use crate::shapes::{parse_style, Style};
 use embedded_graphics::{
@@ -92,6 +109,9 @@ use embedded_graphics::{
 };
 
 pub struct M;
+
+/// this harness was built against the `fixed_point` feature of the library
+const FIXED: bool = cfg!(feature = "fixed_point");
 
 /// the tolerance of the property text: 1.5 px = 3.0 half-pixel units
 const TOL_2X: f64 = 3.0;
@@ -669,6 +689,200 @@ fn styled_kind_counts(ctx: &mut Ctx, kind: &str, a: &Args, ps: (u8, [i32; 2], [i
     }
 }
 
+// ---------------------------------------------------------------------------------------------
+// fixed_point build: the trigonometry itself (streams sector.consts / sector.trig / sector.fxpoints)
+// ---------------------------------------------------------------------------------------------
+
+fn raw_angle(bits: i32) -> Angle {
+    Angle::verif_from_raw(bits)
+}
+
+/// the real call under `catch_unwind`: `None` = it panicked (main.rs has silenced the panic hook)
+fn caught<T>(f: impl FnOnce() -> T) -> Option<T> {
+    std::panic::catch_unwind(std::panic::AssertUnwindSafe(f)).ok()
+}
+
+fn fmt_opt_raw(v: Option<i32>) -> String {
+    match v {
+        Some(v) => v.to_string(),
+        None => "panic".into(),
+    }
+}
+
+fn trig_op(start: i64, sweep: i64) -> String {
+    format!("sector.trig {} {}", start, sweep)
+}
+
+/// Generator of the fixed_point-only streams (inputs only: the literals below are where the interesting raw
+/// values are expected to be, the results always come from the real code).
+fn generate_fixed(tier: Tier, rng: &mut Rng, emit: &mut dyn FnMut(String)) {
+    let quick = tier == Tier::Quick;
+    const PI_BITS: i64 = 205_887;
+    const MAX: i64 = i32::MAX as i64;
+    const MIN: i64 = i32::MIN as i64;
+    let clamp = |v: i64| v.clamp(MIN, MAX);
+    let deg = |k: i32| Angle::from_degrees(k as f32).verif_raw() as i64;
+    emit("sector.consts".into());
+    // every whole degree -720..=720, converted the way a user converts it, as start and as sweep
+    for k in -720..=720 {
+        let r = deg(k);
+        for w in [0, deg(30), deg(-100), deg(200)] {
+            emit(trig_op(r, w));
+        }
+        for s in [0, deg(77)] {
+            emit(trig_op(s, r));
+        }
+    }
+    // raw values around every rounding boundary of `degree` ((k + 1/2) degrees = (2k + 1) PI / 360 bits); the
+    // boundary of the cosine's degree (angle + FRAC_PI_2) lies within one bit of it
+    for k in -722i64..=722 {
+        let c = ((2 * k + 1) * PI_BITS).div_euclid(360);
+        for d in -2..=3 {
+            emit(trig_op(c + d, 0));
+            emit(trig_op(0, c + d));
+            if !quick || d == 0 || d == 1 {
+                emit(trig_op(deg(10), c + d - deg(10)));
+                emit(trig_op(c + d, deg(-45)));
+            }
+        }
+    }
+    // around 0, PI/2, PI, 3 PI/2, TAU, the bevel limits, the f32 exactness limit, where `Real::from(180) * angle`
+    // and `angle + FRAC_PI_2` start to overflow, and the extremes of I16F16
+    let base: [i64; 24] = [
+        0, 102_944, 205_887, 308_831, 411_775, -102_944, -205_887, -308_831, -411_775, 62_910, 348_865, -62_910, -348_865, 1 << 24, -(1 << 24),
+        11_930_464, -11_930_464, 11_930_464 - 102_944, -11_930_464 - 102_944, MAX, MIN, MAX - 102_944, MIN + 102_944, 823_550,
+    ];
+    let mut specials: Vec<i64> = Vec::new();
+    for b in base {
+        for d in -3..=3 {
+            let v = clamp(b + d);
+            if !specials.contains(&v) {
+                specials.push(v);
+            }
+        }
+    }
+    for &a in &specials {
+        emit(trig_op(a, 0));
+        emit(trig_op(0, a));
+        emit(trig_op(a, deg(40)));
+        emit(trig_op(deg(-200), a));
+    }
+    for &a in &base {
+        for &b in &base {
+            emit(trig_op(a, b));
+            emit(trig_op(clamp(a + 1), clamp(b - 1)));
+        }
+    }
+    // random raw values
+    let n = if quick { 6000 } else { 120_000 };
+    let pick = |rng: &mut Rng| -> i64 {
+        match rng.below(8) {
+            0 => rng.range(-2000, 2000),
+            1 | 2 => rng.range(-450_000, 450_000),
+            3 => rng.range(-(1 << 20), 1 << 20),
+            4 => rng.range(-12_100_000, 12_100_000),
+            5 => rng.range(MIN, MAX),
+            6 => *rng.pick(&[205_887i64, -205_887, 411_775, -411_775, 62_910, -62_910, 348_865, -348_865]) + rng.range(-40, 40),
+            _ => ((2 * rng.range(-2000, 2000) + 1) * PI_BITS).div_euclid(360) + rng.range(-1, 2),
+        }
+    };
+    for _ in 0..n {
+        let a = pick(rng);
+        let b = pick(rng);
+        emit(trig_op(a, b));
+    }
+    // raw angles -> pixels, the plane sector computed by the model
+    let m = if quick { 150 } else { 2500 };
+    for k in 0..m {
+        let d = if quick { *rng.pick(&[1i64, 5, 9, 20, 33]) } else { rng.range(0, 128) };
+        let x = rng.range(-40, 40);
+        let y = rng.range(-40, 40);
+        let a = if k % 3 == 0 { ((2 * rng.range(-400, 400) + 1) * PI_BITS).div_euclid(360) + rng.range(-1, 1) } else { rng.range(-900_000, 900_000) };
+        let b = match rng.below(5) {
+            0 => rng.range(-1500, 1500),
+            1 => *rng.pick(&[205_887i64, -205_887, 411_775, -411_775]) + rng.range(-3, 3),
+            _ => rng.range(-450_000, 450_000),
+        };
+        emit(format!("sector.fxpoints {} {} {} {} {}", x, y, d, a, b));
+    }
+    emit(format!("sector.fxpoints 0 0 9 {} 0", MAX));
+    emit(format!("sector.fxpoints 0 0 9 0 {}", MIN));
+}
+
+/// `sector.trig` on the real code, with the C18 oracle on the tags and normals.
+fn execute_trig(op: &str, a: i32, b: i32, ctx: &mut Ctx) -> String {
+    ctx.count("trig");
+    let ps = caught(|| verif_hooks::plane_sector(raw_angle(a), raw_angle(b)));
+    let bv = caught(|| {
+        Styled::new(Sector::new(Point::zero(), 1, raw_angle(a), raw_angle(b)), embedded_graphics::primitives::PrimitiveStyle::with_stroke(Rgb565::new(1, 2, 3), 1))
+            .pixels()
+            .verif_bevel()
+    });
+    let nz = caught(|| raw_angle(a).normalize().verif_raw());
+    let ab = caught(|| raw_angle(a).abs().verif_raw());
+    let ng = caught(|| (-raw_angle(a)).verif_raw());
+    let ad = caught(|| (raw_angle(a) + raw_angle(b)).verif_raw());
+    let sb = caught(|| (raw_angle(a) - raw_angle(b)).verif_raw());
+    match ps {
+        None => ctx.count("trig:panic"),
+        Some(ps) => {
+            ctx.nontrivial(op);
+            ctx.count(match ps.0 {
+                0 => "trig:intersection",
+                1 => "trig:union",
+                _ => "trig:entire-plane",
+            });
+            // the oracle: angles of at most 8 turns (beyond, f64 evaluation of the exact angle is still fine, but
+            // nothing in the property speaks about such angles)
+            let turns8 = 8.0 * std::f64::consts::TAU;
+            let (ra, rb) = (a as f64 / 65536.0, b as f64 / 65536.0);
+            if ra.abs() <= turns8 && rb.abs() <= turns8 {
+                let ulp2 = 2.0 / 65536.0;
+                let w = rb.abs();
+                if w >= std::f64::consts::TAU + ulp2 {
+                    ctx.expect(ps.0 == 2, "C18:trig-full-sweep-not-entire-plane", || format!("sweep {} rad, tag {}", rb, ps.0));
+                } else if w <= std::f64::consts::TAU - ulp2 {
+                    ctx.expect(ps.0 != 2, "C18:trig-entire-plane-below-full-sweep", || format!("sweep {} rad, tag {}", rb, ps.0));
+                    if w >= std::f64::consts::PI + ulp2 {
+                        ctx.expect(ps.0 == 1, "C18:trig-operation-wrong", || format!("sweep {} rad, tag {}", rb, ps.0));
+                    } else if w <= std::f64::consts::PI - ulp2 {
+                        ctx.expect(ps.0 == 0, "C18:trig-operation-wrong", || format!("sweep {} rad, tag {}", rb, ps.0));
+                    }
+                }
+                if ps.0 != 2 {
+                    let (lo, hi) = if rb < 0.0 { (ra + rb, ra) } else { (ra, ra + rb) };
+                    let exact = |t: f64| (-1024.0 * t.sin(), 1024.0 * t.cos());
+                    let (nr, nl) = (exact(lo), exact(hi));
+                    let (l, r) = (ps.1, ps.2);
+                    let eps = (l[0] as f64 - nl.0).abs().max((l[1] as f64 - nl.1).abs()).max((r[0] as f64 - nr.0).abs()).max((r[1] as f64 - nr.1).abs());
+                    note_max(ctx, "trig:normal-eps-max-milli", (eps * 1000.0).ceil() as u64);
+                    ctx.expect(eps <= 16.0, "C18:trig-normal-vector-inaccurate", || {
+                        format!("normals {:?} {:?} deviate by {:.3} (of 1024) from the exact ones", l, r, eps)
+                    });
+                }
+            }
+        }
+    }
+    match bv {
+        None => {}
+        Some(bv) => ctx.count(match bv.0 {
+            0 => "trig:bevel:none",
+            1 => "trig:bevel:interior",
+            _ => "trig:bevel:exterior",
+        }),
+    }
+    format!(
+        "ps={} bv={} nz={} ab={} ng={} ad={} sb={}",
+        ps.map_or("panic".to_string(), fmt_ps),
+        bv.map_or("panic".to_string(), |b| format!("{},{},{}", b.0, b.1[0], b.1[1])),
+        fmt_opt_raw(nz),
+        fmt_opt_raw(ab),
+        fmt_opt_raw(ng),
+        fmt_opt_raw(ad),
+        fmt_opt_raw(sb)
+    )
+}
+
 impl Module for M {
     fn name(&self) -> &'static str {
         "sector"
@@ -678,7 +892,12 @@ impl Module for M {
          {-400,-360,-270,-180,-135,-90,-45,-1,0,1,45,90,135,180,270,359,360,400} degrees x 2 positions, plus larger diameters \
          (31,64,127,128) on a coarser angle grid and seeded random fractional angles (milli-degrees) at random positions; thorough = \
          1-degree grids (all starts x 12 sweeps and all sweeps -400..=400 x 4 starts for d = 11, 40; reduced for d = 127, 128) and 5000 \
-         random fractional angle pairs with diameters up to 128. Non-trivial: diameter >= 1; distinct = distinct op text. \
+         random fractional angle pairs with diameters up to 128; for C18 also half-degree angles (k.5 degrees, +-1 milli-degree) at d = 127, 128. \
+         Non-trivial: diameter >= 1; distinct = distinct op text. \
+         sector.consts / sector.trig / sector.fxpoints (C18, fixed_point build only; raw I16F16 angles): every whole degree -720..=720 as start and as \
+         sweep, raw values -2..=3 around every rounding boundary of the whole degree for k = -722..=722 (as start, sweep and end angle), +-3 around 0, \
+         PI/2, PI, 3PI/2, TAU, the bevel limits, 2^24, the overflow limits of `180 * angle` and `angle + PI/2`, i32::MIN/MAX, all pairs of these base \
+         values, 6000 (thorough 120000) random pairs from mixed ranges, and 150 (thorough 2500) sector.fxpoints shapes. Non-trivial: no panic. \
          sector.sarc / sector.ssector (C01, C02, C07): diameters {0,1,2,3,5,8,13,20} x start angles on a 45-degree grid x sweeps \
          {-400,-360,-270,-180,-90,-45,-1,0,1,30,90,135,180,270,359,360,400} degrees x stroke widths {0,1,2,3,5} x 3 alignments x 4 colour \
          options, quick = a hash-selected third of the pairs that can paint something and a ninth of the others (thorough = all) at 2 positions with rotating target boxes (C01: \
@@ -731,6 +950,20 @@ impl Module for M {
                 }
             }
         }
+        // half-degree angles at the largest diameters: the fixed_point build rounds every angle to whole degrees
+        // (ties away from zero), so k.5 degrees is where its boundary rays are furthest from the exact ones
+        // (0.5 degrees = 0.56 px at radius 64); 499 / 501 milli-degrees sit on either side of the tie
+        if pid == "C18" {
+            let starts: &[i64] = if quick { &[500, 44_500, 135_499, 200_501] } else { &[500, 30_500, 44_500, 89_500, 135_499, 200_501, 314_500, -20_500] };
+            let sweeps: &[i64] = if quick { &[45_000, 200_500, -60_500] } else { &[45_000, 90_500, 200_500, -60_500, 1_000, 179_500] };
+            for (d, x) in [(128i64, -64i64), (127, -63)] {
+                for &s in starts {
+                    for &w in sweeps {
+                        both(emit, x, x, d, s, w);
+                    }
+                }
+            }
+        }
         // random fractional angles
         let n = if quick { 400 } else { 5000 };
         for k in 0..n {
@@ -777,6 +1010,10 @@ impl Module for M {
             for w in -400..=400 {
                 both(emit, -64, -64, 128, 30_000, w * 1000);
             }
+        }
+        // the trigonometry itself: only the fixed_point build has a model of it
+        if FIXED && pid == "C18" {
+            generate_fixed(tier, rng, emit);
         }
     }
 
@@ -921,6 +1158,65 @@ impl Module for M {
                     bv.2,
                     styled_report(ctx, op, "ssector", &o, &style, tb, dd)
                 )
+            }
+            "sector.consts" | "sector.trig" | "sector.fxpoints" if !FIXED => {
+                // raw angles are f32 bits in this build: nothing to compare (the generator emits none of these)
+                "not-a-fixed_point-build".into()
+            }
+            "sector.consts" => {
+                ctx.count("trig:consts");
+                format!(
+                    "c180={} c55={} c305={} c360={} nm={}",
+                    Angle::from_degrees(180.0).verif_raw(),
+                    Angle::from_degrees(55.0).verif_raw(),
+                    Angle::from_degrees(360.0 - 55.0).verif_raw(),
+                    Angle::from_degrees(360.0).verif_raw(),
+                    raw_angle(-1).normalize().verif_raw() as i64 + 1
+                )
+            }
+            "sector.trig" => {
+                let a = t.i32();
+                let b = t.i32();
+                execute_trig(op, a, b, ctx)
+            }
+            "sector.fxpoints" => {
+                let tl = t.point();
+                let d = t.u32();
+                let a = t.i32();
+                let b = t.i32();
+                ctx.count("fxpoints");
+                let r = caught(|| {
+                    let ps = verif_hooks::plane_sector(raw_angle(a), raw_angle(b));
+                    let s = Sector::new(tl, d, raw_angle(a), raw_angle(b));
+                    let bb = s.bounding_box();
+                    let pts: Vec<Point> = s.points().collect();
+                    let m = 2i32;
+                    let mut bits = String::new();
+                    for y in tl.y - m..tl.y + d as i32 + m {
+                        for x in tl.x - m..tl.x + d as i32 + m {
+                            bits.push(if s.contains(Point::new(x, y)) { '1' } else { '0' });
+                        }
+                    }
+                    (ps, bb, pts, bits)
+                });
+                match r {
+                    None => {
+                        ctx.count("fxpoints:panic");
+                        "panic".into()
+                    }
+                    Some((ps, bb, pts, bits)) => {
+                        if d >= 1 {
+                            ctx.nontrivial(op);
+                        }
+                        let c = Circle::new(tl, d);
+                        let stray = pts.iter().find(|p| !c.contains(**p)).copied();
+                        ctx.expect(stray.is_none(), "C18:sector-point-outside-circle", || format!("{:?}", stray));
+                        if ps.0 == 2 {
+                            ctx.expect(pts == c.points().collect::<Vec<_>>(), "C18:sector-full-sweep-ne-circle", || format!("{} sector points", pts.len()));
+                        }
+                        format!("ps={} bb={} pts={} in={}", fmt_ps(ps), fmt_rect(&bb), fmt_pts(pts), bits)
+                    }
+                }
             }
             other => panic!("unknown op {}", other),
         }
